@@ -19,3 +19,101 @@ pub use super::store::verif_h::*;
 pub use super::stream::verif_h::*;
 #[allow(unused_imports)]
 pub use super::streams::verif_h::*;
+
+// ---------------------------------------------------------------------------
+// shared construction helpers for the step harnesses
+use super::*;
+use std::time::{Duration, Instant};
+
+/// A `Config` with every limit either concrete-generous or chosen by the caller.
+pub(crate) fn cfg() -> Config {
+    Config {
+        initial_max_send_streams: 10,
+        local_max_buffer_size: 1 << 20,
+        local_next_stream_id: 1.into(),
+        local_push_enabled: false,
+        extended_connect_protocol_enabled: false,
+        local_reset_duration: Duration::from_secs(1),
+        local_reset_max: 10,
+        remote_reset_max: 10,
+        remote_init_window_sz: 65_535,
+        remote_max_initiated: None,
+        local_max_error_reset_streams: None,
+        data_frame_budget: crate::proto::DEFAULT_DATA_FRAME_BUDGET,
+    }
+}
+
+/// Payload type of outbound frames in harnesses: only the *amount* of data matters
+/// to h2's splitting/accounting (it is generic in `B: Buf`); `off` records where in
+/// the user's byte stream this piece starts, so harnesses can assert that emitted
+/// pieces are contiguous and in order.
+#[derive(Debug, Clone, Copy, PartialEq, Eq)]
+pub(crate) struct SymBuf {
+    pub off: usize,
+    pub rem: usize,
+}
+static ZEROS: [u8; 8] = [0; 8];
+impl bytes::Buf for SymBuf {
+    fn remaining(&self) -> usize {
+        self.rem
+    }
+    fn chunk(&self) -> &[u8] {
+        let n = if self.rem < 8 { self.rem } else { 8 };
+        &ZEROS[..n]
+    }
+    fn advance(&mut self, cnt: usize) {
+        assert!(cnt <= self.rem, "advance past the end of the buffer");
+        self.rem -= cnt;
+        self.off += cnt;
+    }
+}
+
+/// Builds an `Instant` from raw parts (the clock stub / reset-expiry harnesses need
+/// instants without calling the OS clock).  Layout is validated by `instant_layout_ok`.
+pub(crate) fn mk_instant(secs: i64, nanos: u32) -> Instant {
+    #[repr(C)]
+    struct Raw {
+        secs: i64,
+        nanos: u32,
+    }
+    assert!(std::mem::size_of::<Instant>() == std::mem::size_of::<Raw>());
+    unsafe { std::mem::transmute::<Raw, Instant>(Raw { secs, nanos }) }
+}
+pub(crate) fn instant_layout_ok() -> bool {
+    let a = mk_instant(5, 7);
+    let b = mk_instant(6, 7);
+    b.checked_duration_since(a) == Some(Duration::from_secs(1)) && a < b
+}
+
+/// Clock stub: an arbitrary instant in a range where adding the configured
+/// durations cannot overflow; successive calls are non-decreasing.
+static mut CLOCK_SECS: i64 = 1_000;
+pub(crate) fn stub_instant_now() -> Instant {
+    let step: i64 = kani::any();
+    kani::assume(step >= 0 && step <= 1_000_000);
+    unsafe {
+        CLOCK_SECS += step;
+        mk_instant(CLOCK_SECS, 0)
+    }
+}
+
+/// Counting waker: `wake`/`wake_by_ref` increment a counter, nothing else.
+pub(crate) mod cw {
+    use std::task::{RawWaker, RawWakerVTable, Waker};
+    pub(crate) static mut WAKES: [u32; 4] = [0; 4];
+    unsafe fn clone(p: *const ()) -> RawWaker {
+        RawWaker::new(p, &VT)
+    }
+    unsafe fn wake(p: *const ()) {
+        WAKES[p as usize] += 1;
+    }
+    unsafe fn drop(_p: *const ()) {}
+    static VT: RawWakerVTable = RawWakerVTable::new(clone, wake, wake, drop);
+    /// waker number `i` (0..4)
+    pub(crate) fn waker(i: usize) -> Waker {
+        unsafe { Waker::from_raw(RawWaker::new(i as *const (), &VT)) }
+    }
+    pub(crate) fn wakes(i: usize) -> u32 {
+        unsafe { WAKES[i] }
+    }
+}
